@@ -94,7 +94,10 @@ class GMRF(CallableModel):
         )
 
     def _sample_shape(self) -> torch.Size:
-        return self.field.tensor.shape[:-1]
+        shapes = [self.field.tensor.shape[:-1], self.precision.tensor.shape[:-1]]
+        if self.tree_model is not None:
+            shapes.append(self.tree_model.node_heights.shape[:-1])
+        return max(shapes, key=len)
 
     def precision_matrix(self) -> torch.Tensor:
         dim = self.field.shape[-1]
@@ -229,7 +232,7 @@ class GMRFCovariate(GMRF):
         )
 
     def _sample_shape(self) -> torch.Size:
-        return self.field.tensor.shape[:-1]
+        return max(super()._sample_shape(), self.beta.tensor.shape[:-1], key=len)
 
     @classmethod
     def from_json(
